@@ -11,7 +11,7 @@ from checks import _pathspace as ps
 ID = "C16"
 TITLE = "Matching is invariant under relabelling and rigid motions of the plane"
 MANIFEST = {
-    "text": "For every graph on 2-3 placed nodes in both alphabets and twelve named 4-5 node graphs, every trace of the slice and 12 "
+    "text": "For every graph on 2-3 placed nodes in both alphabets and 26 named 4-12 node graphs, every trace of the slice and 12 "
             "configurations (3 families x non-emitting on/off x {no cut-off, no width | max_dist+min_prob_norm, width 2}), the real "
             "matcher is run on the input and on every transformed input: relabellings (reversed integers, strings, strings in reverse "
             "lexical order), reversed node listing, the axis swap, scalings by 2^k for k in {-8,-3,3,10,20} of coordinates AND of "
@@ -23,6 +23,8 @@ MANIFEST = {
     "note": "Trusted: the transformations (exact in floating point for GRID inputs), mc/refmodel.py for tie-equivalence.",
     "technique": "bounded-exhaustive metamorphic enumeration: every input executed before and after each transformation",
 }
+MANIFEST["text"] += " " + (
+    'Added after the seeding waves: integer labels rotated so that the falsy label 0 lands on interior nodes, a string relabelling that uses the empty string for one node.')
 BUDGET = {"quick": 420, "thorough": 3000}
 RULE = ("states = (input, configuration, transformation) executions, transitions = matcher runs, traces validated = transformed "
         "results compared with the base result; non-trivial = the base match is non-empty; outcomes = base canonical results.")
